@@ -70,18 +70,53 @@ def random_walks(progs, wd, walks, seed, fuel, prelude, name, flavour):
                         "obs": {"save": False, "vars": False, "visits": False}, "script": script})
     recs = lib.run_inkdrive(scs, wd, name=name + "-walk", flavour=flavour, timeout=1800)
     out = {}
-    for key, rs in lib.by_case(recs).items():
-        i, w = json.loads(key)
-        path = []
-        for r in rs:
-            if r.get("op") == "choose":
-                if r.get("res") != "ok" or "chosen" not in r:
-                    break
-                path.append(r["chosen"])
-        if path:
-            out.setdefault(i, [])
-            if path not in out[i]:
-                out[i].append(path)
+    offered = {}      # program -> path prefix (tuple) -> number of choices on offer there
+
+    def collect(recs_):
+        for key, rs in lib.by_case(recs_).items():
+            i, w = json.loads(key)[:2]
+            path, nch = [], None
+            for r in rs:
+                if r.get("op") == "cont" and r.get("res") == "ok":
+                    nch = len((r.get("obs") or {}).get("choices") or [])
+                if r.get("op") == "choose":
+                    if r.get("res") != "ok" or "chosen" not in r:
+                        break
+                    if nch:
+                        offered.setdefault(i, {})[tuple(path)] = nch
+                    path.append(r["chosen"])
+            if path:
+                out.setdefault(i, [])
+                if path not in out[i]:
+                    out[i].append(path)
+    collect(recs)
+    # Novelty-guided rounds: a scene that lies twenty choices deep behind particular answers is not found by throwing dice
+    # from the start.  Every further round starts from choice points already reached where an option has never been taken
+    # (deepest first), takes it, and walks on at random.
+    for rd in range(walks.get("rounds", 0)):
+        scs = []
+        for i, p in enumerate(progs):
+            taken = {}
+            for path in out.get(i, []):
+                for k in range(len(path)):
+                    taken.setdefault(tuple(path[:k]), set()).add(path[k])
+            frontier = [(pre, j) for pre, n in offered.get(i, {}).items() for j in range(n) if j not in taken.get(pre, set())]
+            rnd = _r.Random("%s/%s/%d/round%d" % (walks.get("seed", 0), p.get("id"), i, rd))
+            rnd.shuffle(frontier)
+            frontier.sort(key=lambda f: -len(f[0]))
+            half = walks["n"] // 2
+            picks = frontier[:half] + rnd.sample(frontier[half:], min(len(frontier[half:]), walks["n"] - half))
+            for w, (pre, j) in enumerate(picks):
+                script = [{"op": "new"}] + list(prelude(p) if callable(prelude) else (prelude or [])) + [{"op": "turn"}]
+                for c in list(pre) + [j]:
+                    script += [{"op": "choose", "i": c, "mod": True}, {"op": "turn"}]
+                for _ in range(max(0, walks["depth"] - len(pre) - 1)):
+                    script += [{"op": "choose", "i": rnd.randrange(1 << 20), "mod": True}, {"op": "turn"}]
+                scs.append({"case": [i, w, rd], "programs": [prog_spec(p)], "seed": seed, "fuel": fuel,
+                            "obs": {"save": False, "vars": False, "visits": False}, "script": script})
+        if not scs:
+            break
+        collect(lib.run_inkdrive(scs, wd, name="%s-walk%d" % (name, rd + 1), flavour=flavour, timeout=1800))
     return out
 
 
